@@ -348,6 +348,11 @@ macro "gem_run" "[" ts:Lean.Parser.Tactic.simpLemma,* "]" : tactic => `(tactic|
   simp [$ts,*, run_okM_bind, run_bind, prep_mk, prep_nil, prep_prep, run_pure, run_liftR, run_panic, run_ite, run_newCell, run_load, run_load_none, okM_run, Heap.alloc, makeSlice_len, makeSlice_nonneg, copySlice_replicate, Go.sliceLen, olen, olist, oidx,
     toCell_some_map, toCell_none, toCell_replicate, toCell_ofCell, run_store', run_update', run_newCellOf', ocopy_some, ocopy_none, copySlice_replicate_map, take_length_map, Go.copySlice, map_ok, map_error, pure_eq_ok, throw_eq_error, get_append_self, set_append_self, cellOf, omake, -bind_pure_comp])
 
+/-- `gem_run` at hypotheses -/
+macro "gem_run_at" "[" ts:Lean.Parser.Tactic.simpLemma,* "]" loc:Lean.Parser.Tactic.location : tactic => `(tactic|
+  simp [$ts,*, run_okM_bind, run_bind, prep_mk, prep_nil, prep_prep, run_pure, run_liftR, run_panic, run_ite, run_newCell, run_load, run_load_none, okM_run, Heap.alloc, makeSlice_len, makeSlice_nonneg, copySlice_replicate, Go.sliceLen, olen, olist, oidx,
+    toCell_some_map, toCell_none, toCell_replicate, toCell_ofCell, run_store', run_update', run_newCellOf', ocopy_some, ocopy_none, copySlice_replicate_map, take_length_map, Go.copySlice, map_ok, map_error, pure_eq_ok, throw_eq_error, get_append_self, set_append_self, cellOf, omake, -bind_pure_comp] $loc)
+
 /-- split every `if`/`match`, then close each case -/
 macro "gem_close" : tactic => `(tactic|
   ((repeat' split) <;> (first | rfl | (simp_all; done) | grind)))
